@@ -40,7 +40,7 @@ def _c13_family(f):
 
 REGISTRY = {
     "C13": {
-        "rules": [order.rule_requested_order, memo.rule_info_memo_key, envs.rule_env_exponent, 
+        "rules": [order.rule_requested_order, memo.rule_info_memo_key, memo.rule_sibling_guard_agreement, envs.rule_env_exponent, 
             P(optflow.rule_option_delivery, opts=("normalized",), modules=("quimb.tensor",), rule="opt-deliver[normalized]", floor=15,
               description="from every function that accepts `normalized`, each call whose resolved callee (all candidates) accepts "
                           "`normalized` receives a value derived from the caller's own (or an explicit literal): an omitted "
@@ -126,7 +126,7 @@ REGISTRY = {
         "assumptions": COMMON_ASSUMPTIONS,
     },
     "C19": {
-        "rules": [opalgebra.rule_scale_substitution, opalgebra.rule_jw_string_span, opalgebra.rule_sector_canonical_order, opalgebra.rule_builder_invalidate, symmetry.rule_symmetry_dispatch, symmetry.rule_symmetry_strings, threads.rule_stride_siblings],
+        "rules": [opalgebra.rule_scale_substitution, opalgebra.rule_jw_string_span, opalgebra.rule_sector_canonical_order, opalgebra.rule_builder_invalidate, opalgebra.rule_transform_pipeline, opalgebra.rule_blocked_per_call, symmetry.rule_symmetry_dispatch, symmetry.rule_symmetry_strings, threads.rule_stride_siblings],
         "explanation": (
             "static (decision-table extraction + sibling comparison): decides that every symmetry dispatcher handles exactly "
             "the vocabulary {None,Z2,U1,U1U1} / {0,1,2,3}, rejects anything else, unpacks a sector of the right arity and "
@@ -138,7 +138,7 @@ REGISTRY = {
         "assumptions": COMMON_ASSUMPTIONS,
     },
     "C17": {
-        "rules": [exponent.rule_linop_dtype, linalg.rule_backend_use_or_reject, linalg.rule_dense_table, linalg.rule_perm_provenance],
+        "rules": [exponent.rule_linop_dtype, linalg.rule_backend_use_or_reject, linalg.rule_dense_table, linalg.rule_perm_provenance, linalg.rule_none_vs_zero],
         "explanation": (
             "static (registry evaluation + use-or-reject): decides that every registered eigen / singular-value backend accepts "
             "every setting its dispatcher builds and reads each selection-bearing option it accepts, that the dispatcher builds "
